@@ -358,7 +358,7 @@ class Machine:
             self._return()
 
     def _return(self) -> None:
-        self._call_stack.unwind_loops()
+        self._vm_math.restore_depth(self._call_stack.unwind_loops())
         self._reg.pc = self._call_stack.get_return()
         self._call_stack.exit_routine()
 
@@ -382,8 +382,10 @@ class Machine:
 
     def _loop(self) -> None:
         self._call_stack.enter_loop()
+        self._call_stack.get_top().stack_depth = self._vm_math.stack_depth()
 
     def _end_loop(self) -> None:
+        self._vm_math.restore_depth(self._call_stack.get_top().stack_depth)
         self._call_stack.exit_loop()
 
     @inject(LightSet)
